@@ -135,7 +135,12 @@ impl Prop for C02 {
         let strat = gen::re_strategy(&p);
         let tapes = gen::tape_strategy(24);
         for i in 0..tier.pick(500, 5000) {
-            let t = gen::fix_nullable(sample(&strat, r), 'a');
+            let mut t = gen::fix_nullable(sample(&strat, r), 'a');
+            if i % 6 == 1 {
+                // a bracket set of 10+ individually listed characters inside a larger regex
+                let many = gen::many_char_set(&sample(&tapes, r), 10 + i % 5);
+                t = if i % 12 == 1 { cat(plus(many), opt(t)) } else { cat(t, star(many)) };
+            }
             let mut s = simple_spec(vec![(t, None)], i % 3 == 0, vec![]);
             if i % 2 == 0 {
                 let tape = sample(&tapes, r);
@@ -279,9 +284,12 @@ pub enum Shape {
     /// `CLASS+ = 0, 'm1' '!' = 1, 'm2' '!' = 2, …, _ = k`: literal characters that are members of
     /// the class (end points of its pieces) leave the same state as the class's ranges
     WithLiterals,
+    /// `CLASS+ = 0, '!' (CLASS # m)+ = 1, _ = 2` for a member m that ends a piece: two nearly
+    /// identical classes (same piece starts, one different end) compiled into one lexer
+    TwoTables,
 }
 
-pub const SHAPES: [Shape; 5] = [Shape::AcceptArms, Shape::Alone, Shape::Loop, Shape::Ctx, Shape::WithLiterals];
+pub const SHAPES: [Shape; 6] = [Shape::AcceptArms, Shape::Alone, Shape::Loop, Shape::Ctx, Shape::WithLiterals, Shape::TwoTables];
 
 /// Members of the class that sit at piece boundaries with at least two pieces before them where
 /// possible (they become character literals of competing rules).
@@ -322,6 +330,25 @@ pub fn class_spec(class: Re, shape: Shape, lets: Vec<(String, Re)>) -> Spec {
             rules.push((Re::Any, None));
             simple_spec(rules, false, lets)
         }
+        Shape::TwoTables => {
+            let cls = class.expand(&lets.iter().cloned().collect()).and_then(|c| c.class()).unwrap_or_else(Cls::empty);
+            // a member that is the last code point of a piece with more than one code point
+            let m = cls
+                .0
+                .iter()
+                .rev()
+                .find(|(a, b)| b > a && char::from_u32(*b).map(|c| c != '!').unwrap_or(false))
+                .and_then(|(_, b)| char::from_u32(*b));
+            let second = match m {
+                Some(m) => gen::mk_diff(class.clone(), Re::Char(m)),
+                None => class.clone(),
+            };
+            simple_spec(
+                vec![(plus(class), None), (cat(Re::Char('!'), plus(second)), None), (Re::Any, None)],
+                false,
+                lets,
+            )
+        }
     }
 }
 
@@ -333,6 +360,18 @@ pub fn class_input(chars: &[char], shape: Shape) -> String {
             for c in chars {
                 s.push('!');
                 s.push(*c);
+            }
+            s
+        }
+        Shape::TwoTables => {
+            // every probe alone (first class), then every probe right after a '!' (second class)
+            let mut s: String = chars.iter().filter(|c| **c != '!').collect();
+            for c in chars {
+                if *c != '!' {
+                    s.push(' ');
+                    s.push('!');
+                    s.push(*c);
+                }
             }
             s
         }
@@ -456,6 +495,10 @@ impl Prop for C11b {
                     d = gen::mk_diff(d, Re::Set(vec![SetItem::R(ch(pieces[0].0), ch(pieces[0].1))]));
                 }
                 c = if tp.next(3) == 0 { alt(d, c) } else { d };
+            } else if i % 5 == 2 {
+                // ten or more individually listed characters (no ranges)
+                let many = gen::many_char_set(&sample(&tapes, r), 10 + i % 7);
+                c = if i % 10 == 2 { alt(many, c) } else { many };
             } else if i % 5 == 0 {
                 // many pieces: beyond the guard-chain threshold, minus / plus something
                 let big = gen::many_piece_set(&sample(&tapes, r), 10 + i % 9);
@@ -464,7 +507,12 @@ impl Prop for C11b {
             if c.class().map(|k| k.is_empty()).unwrap_or(true) {
                 continue;
             }
-            let shape = SHAPES[i % 5];
+            let shape = SHAPES[i % 6];
+            if shape == Shape::TwoTables && c.class().map(|k| k.0.len() <= 9).unwrap_or(false) {
+                // both classes of this shape must be table-sized
+                let big = gen::many_piece_set(&sample(&tapes, r), 11 + i % 7);
+                c = alt(big, c);
+            }
             let mut lets = vec![];
             let class = if i % 7 == 3 {
                 // through a variable bound to a class
@@ -540,6 +588,8 @@ pub fn shape_of(spec: &Spec) -> Shape {
     let rules = spec.rules();
     if rules[0].ctx.is_some() {
         Shape::Ctx
+    } else if matches!(rules[0].re, Re::Plus(_)) && rules.len() == 3 && matches!(&rules[1].re, Re::Cat(a, b) if matches!(**a, Re::Char('!')) && matches!(**b, Re::Plus(_))) {
+        Shape::TwoTables
     } else if matches!(rules[0].re, Re::Plus(_)) && rules.len() > 2 {
         Shape::WithLiterals
     } else if matches!(rules[0].re, Re::Plus(_)) {
